@@ -240,7 +240,9 @@ fn run_history(case: &str, ops: &[Op], out: &mut Out, stats: &mut Stats) -> Stri
         let o = match op {
             Op::AddNameNs(s, n) => {
                 let ns = Ids::get(&ids.nss, *n).expect("known ns id");
-                match guard(|| xot.add_name_ns(s, ns)) {
+                // a name in no namespace is registered through add_name every other time (the same entry point by contract)
+                let plain = ns == xot.no_namespace() && k % 2 == 1;
+                match guard(|| if plain { xot.add_name(s) } else { xot.add_name_ns(s, ns) }) {
                     Ok(id) => {
                         let i = Ids::put(&mut ids.names, id);
                         if let Err(e) = reg(&mut orc.n_by_val, &mut orc.n_by_id, (s.clone(), *n), i) {
@@ -293,6 +295,13 @@ fn run_history(case: &str, ops: &[Op], out: &mut Out, stats: &mut Stats) -> Stri
             Op::LookupNameNs(s, n) => {
                 let ns = Ids::get(&ids.nss, *n).expect("known ns id");
                 let got = xot.name_ns(s, ns).map(id_num);
+                // the lookup without a namespace argument is the same lookup in no namespace
+                if ns == xot.no_namespace() {
+                    let plain = xot.name(s).map(id_num);
+                    if plain != got {
+                        fail(out, "readonly-lookup", format!("step {}: name({:?}) = {:?} but name_ns({:?}, no namespace) = {:?}", k, s, plain, s, got));
+                    }
+                }
                 // Parse / html5 register names the oracle has not seen: learn them (they must not alias)
                 let want = orc.n_by_val.get(&(s.clone(), *n)).copied();
                 if want.is_some() && got != want {
